@@ -472,6 +472,7 @@ func ruleC03_3(c *Ctx, r *Rep) {
 	}
 	r.Floor("C03.3", n, 3)
 	if del := r.Anchor("C03.3", fnDeliver); del != nil {
+		r.noValueUse(c, "C03.3", del)
 		for _, ci := range c.callersOf(del) {
 			o := c.Key(top(ci.Parent()))
 			r.Check("C03.3", "C03.3:caller:"+o, ci.Pos(), in(o, fnPublish, fnDeadLetter), "", "deliverToSubscription is called from "+o+": deliveries are (re)created outside publish and dead-letter forwarding")
